@@ -49,6 +49,7 @@ type ProxyCfg struct {
 	Preconnect    bool   `json:"preconnect,omitempty"`
 	ConnTimeoutMs int    `json:"conn_timeout_ms,omitempty"`
 	RetryMs       int    `json:"retry_ms,omitempty"`
+	SeedAll       bool   `json:"seed_all,omitempty"`     // the servers option lists replicas too (their pools exist before their role is known)
 	SeedServers   int    `json:"seed_servers,omitempty"` // how many node addresses are in the servers option (0 = all masters)
 }
 
